@@ -17,6 +17,7 @@
 size_t g_len;
 const char *g_email;
 long g_last_at;        /* index of the last '@', -1 if none */
+long g_first_at;       /* index of the first '@', -1 if none (only needed if the code asks for it: strchr/strcspn/memchr) */
 long g_last_rb;        /* index of the last ']' at or after the domain start, -1 if none */
 long g_first_colon;    /* index of the first ':' after the opening bracket, -1 if none */
 long g_last_dot;       /* index of the last '.' in the domain, -1 if none */
@@ -126,8 +127,24 @@ char *strrchr(const char *s, int c)
     __CPROVER_assert(c == '.' && g_last_at >= 0 && s == g_email + DOM, "strrchr('.') is applied to the whole domain");
     return g_last_dot < 0 ? (char *)0 : (char *)s + (g_last_dot - DOM);
 }
+/* the first '@' -- the library itself never asks for it (it splits at the last one); modelled so that a change that
+   does is judged by the postconditions and not by a missing model */
+size_t strcspn(const char *s, const char *reject)
+{
+    __CPROVER_assert(s == g_email && reject[0] == '@' && reject[1] == 0, "strcspn is modelled for (address, \"@\") only");
+    return g_first_at < 0 ? g_len : (size_t)g_first_at;
+}
+void *memchr(const void *s, int c, size_t n)
+{
+    __CPROVER_assert(s == (const void *)g_email && c == '@' && n == g_len, "memchr is modelled for (address, '@', length) only");
+    return g_first_at < 0 ? (void *)0 : (void *)((char *)s + g_first_at);
+}
 char *strchr(const char *s, int c)
 {
+    if (c == '@') {
+        __CPROVER_assert(s == g_email, "strchr('@') is modelled on the whole address only");
+        return g_first_at < 0 ? (char *)0 : (char *)s + g_first_at;
+    }
     __CPROVER_assert(c == ':' && g_last_at >= 0 && s == g_email + DOM + 1, "strchr is only used to find the first ':' after the opening bracket");
     rec_strchr_colon_calls++;
     return g_first_colon < 0 ? (char *)0 : (char *)s + (g_first_colon - (DOM + 1));
@@ -169,6 +186,7 @@ char *strndup(const char *s, size_t n)
 #define EMAIL_REQUIRES \
 __CPROVER_requires(length == g_len && g_len <= ((size_t)1 << 40) && __CPROVER_is_fresh(email, g_len + 1) && email[g_len] == 0 && g_email == email) \
 __CPROVER_requires(g_last_at >= -1 && g_last_at < (long)g_len && (g_last_at >= 0 ==> email[g_last_at] == '@')) \
+__CPROVER_requires(g_first_at >= -1 && (g_last_at < 0 ? g_first_at == -1 : (g_first_at >= 0 && g_first_at <= g_last_at && email[g_first_at] == '@'))) \
 __CPROVER_requires(g_last_rb >= -1 && g_last_rb < (long)g_len && (g_last_rb >= 0 ==> (g_last_rb > g_last_at && email[g_last_rb] == ']'))) \
 __CPROVER_requires(g_first_colon >= -1 && g_first_colon < (long)g_len && (g_first_colon >= 0 ==> (g_first_colon > g_last_at + 1 && email[g_first_colon] == ':'))) \
 __CPROVER_requires(g_last_dot >= -1 && g_last_dot < (long)g_len && (g_last_dot >= 0 ==> (g_last_dot > g_last_at && email[g_last_dot] == '.'))) \
